@@ -281,6 +281,17 @@ def r4c_mesh_outward(repo: Repo, rep, R="R-C06-4b"):
         uncond = bool(fixes) and all(not any("winding" in dump(g) or "normals" in dump(g) for g, pol, k in e.guards) for e in fixes)
         rep.check(R, uncond, init.site(), init.fq, "mesh.fix_normals() runs on every construction path (also for consistently inverted winding)",
                   f"{len(fixes)} call(s); guards {[dump(g)[:40] for e in fixes for g, pol, k in e.guards][:2]}", "fix_normals conditional/missing")
+    # fix_normals repairs the winding through the face adjacency, which exists only after trimesh merged duplicate vertices (its default
+    # processing): a mesh built with process=False from independent triangles has no adjacency to repair
+    for c in ast.walk(init.node):
+        if isinstance(c, ast.Call) and (attr_chain(c.func) or "").endswith("Trimesh"):
+            off = [k for k in c.keywords if k.arg in ("process", "merge_vertices") and isinstance(k.value, ast.Constant) and k.value.value is False]
+            unknown = [k for k in c.keywords if k.arg in ("process",) and not isinstance(k.value, ast.Constant)]
+            if unknown:
+                rep.undecided(R, init.site(c), init.fq, "trimesh's vertex merging is left on", dump(c)[:80])
+            else:
+                rep.check(R, not off, init.site(c), init.fq, "the mesh is built with trimesh's default processing (vertices merged: fix_normals needs the face adjacency)",
+                          dump(c)[:100], "processing switched off")
 
 
 def r5_single_point(repo: Repo, rep):
@@ -500,6 +511,8 @@ def run(repo: Repo, rep):
     from .c05 import r1_truth_tables, r7_own_columns  # normals are selected by boundary membership; its Boolean structure must be the set algebra; own coordinates by name; sides found with float32-sized slack
     r1_truth_tables(repo, rep)
     r7_own_columns(repo, rep)
+    from .c01 import r1_facts  # normals are promised at the points the boundary samplers return: those must lie on the boundary of the expression
+    r1_facts(repo, rep)
 
 
 _U = "src/torchphysics/problem/domains/domainoperations/union.py"
